@@ -1,9 +1,14 @@
 // gentool links the repository's generated packages (which register their file
 // descriptors) and serves two purposes for the C17/C16 checks of gvc:
 //
-//	gentool table                       binding table (JSON) of every gorums service registered
-//	gentool regen PLUGIN PARAM TARGET OUTDIR   run the freshly built plugin on a CodeGeneratorRequest
+//	gentool table [renamed]             binding table (JSON) of every gorums service registered
+//	gentool regen PLUGIN PARAM TARGET OUTDIR [renamed]  run the freshly built plugin on a CodeGeneratorRequest
 //	                                    assembled from the embedded descriptors (no protoc needed)
+//
+// "renamed": every method is renamed in memory to its lower_snake_case spelling (QuorumCall ->
+// quorum_call). The generated Go identifiers stay the same (protoc-gen-go camel-cases them back),
+// but the wire name of the method now differs from every Go identifier, so a stub or a server
+// registration that derives the wire name from a Go name no longer agrees with the descriptor.
 //	gentool mutate PLUGIN PARAM TARGET METHOD OPT...  same, with extra boolean method options set in memory
 package main
 
@@ -39,6 +44,7 @@ import (
 
 type Method struct {
 	Name             string `json:"name"`
+	GoName           string `json:"go_name"`
 	FullName         string `json:"full_name"`
 	Input            string `json:"input"`
 	Output           string `json:"output"`
@@ -66,7 +72,53 @@ func boolOpt(m protoreflect.MethodDescriptor, ext protoreflect.ExtensionType) bo
 	return v
 }
 
-func table() []Service {
+// snake spells a CamelCase method name in lower_snake_case; camel is protoc-gen-go's inverse.
+func snake(s string) string {
+	var b []byte
+	for i := 0; i < len(s); i++ {
+		c := s[i]
+		if c >= 'A' && c <= 'Z' {
+			if i > 0 {
+				b = append(b, '_')
+			}
+			c += 'a' - 'A'
+		}
+		b = append(b, c)
+	}
+	return string(b)
+}
+
+func camel(s string) string {
+	var b []byte
+	up := true
+	for i := 0; i < len(s); i++ {
+		c := s[i]
+		switch {
+		case c == '_' && i+1 < len(s) && s[i+1] >= 'a' && s[i+1] <= 'z':
+			up = true
+		case up && c >= 'a' && c <= 'z':
+			b = append(b, c-('a'-'A'))
+			up = false
+		default:
+			b = append(b, c)
+			up = false
+		}
+	}
+	return string(b)
+}
+
+// renameMethods renames every method whose Go identifier survives the round trip.
+func renameMethods(p *descriptorpb.FileDescriptorProto) {
+	for _, s := range p.Service {
+		for _, m := range s.Method {
+			if n := snake(m.GetName()); camel(n) == m.GetName() {
+				m.Name = proto.String(n)
+			}
+		}
+	}
+}
+
+func table(renamed bool) []Service {
 	var out []Service
 	protoregistry.GlobalFiles.RangeFiles(func(fd protoreflect.FileDescriptor) bool {
 		gp := ""
@@ -79,12 +131,22 @@ func table() []Service {
 		if strings.HasPrefix(gp, "cmd/") {
 			gp = "github.com/relab/gorums/" + gp
 		}
+		if renamed {
+			p := protodesc.ToFileDescriptorProto(fd)
+			renameMethods(p)
+			nfd, err := protodesc.NewFile(p, protoregistry.GlobalFiles)
+			if err != nil {
+				fmt.Fprintln(os.Stderr, "renamed descriptor:", err)
+				os.Exit(2)
+			}
+			fd = nfd
+		}
 		for i := 0; i < fd.Services().Len(); i++ {
 			sd := fd.Services().Get(i)
 			s := Service{File: fd.Path(), GoPackage: gp, Service: string(sd.Name())}
 			for j := 0; j < sd.Methods().Len(); j++ {
 				md := sd.Methods().Get(j)
-				m := Method{Name: string(md.Name()), FullName: string(md.FullName()), Input: string(md.Input().Name()), Output: string(md.Output().Name()),
+				m := Method{Name: string(md.Name()), GoName: camel(string(md.Name())), FullName: string(md.FullName()), Input: string(md.Input().Name()), Output: string(md.Output().Name()),
 					ClientStream: md.IsStreamingClient(), ServerStream: md.IsStreamingServer()}
 				switch {
 				case boolOpt(md, gorums.E_Quorumcall):
@@ -168,11 +230,15 @@ func main() {
 	}
 	switch os.Args[1] {
 	case "table":
-		b, _ := json.MarshalIndent(table(), "", " ")
+		b, _ := json.MarshalIndent(table(len(os.Args) > 2 && os.Args[2] == "renamed"), "", " ")
 		os.Stdout.Write(b)
 	case "regen":
 		plugin, param, target, outdir := os.Args[2], os.Args[3], os.Args[4], os.Args[5]
-		resp, stderr, err := runPlugin(plugin, request(target, param, nil))
+		var mut func(*descriptorpb.FileDescriptorProto)
+		if len(os.Args) > 6 && os.Args[6] == "renamed" {
+			mut = renameMethods
+		}
+		resp, stderr, err := runPlugin(plugin, request(target, param, mut))
 		if err != nil || resp.Error != nil {
 			fmt.Fprintf(os.Stderr, "plugin failed: %v %s %s\n", err, resp.GetError(), stderr)
 			os.Exit(1)
